@@ -34,12 +34,19 @@ def obs_no_filename(o):
     return o
 
 
+# a lone surrogate cannot be the content of a UTF-8 file: C12's "same content through both entry points" ranges over encodable text
+ENCODABLE = frozenset(i for i, c in enumerate(chars.R) if not 0xD800 <= ord(c) <= 0xDFFF)
+
+
 def product(pairs):
     def harness_(ex):
         rp = repo()
         i = harness.choose_index(ex, "pair", len(pairs))
         seed, pos = pairs[i]
-        content = harness.text_with_holes(ex, seed, [pos], 1) if pos is not None else seed
+        ins = isinstance(pos, tuple)       # ("ins", p): a character INSERTED before seed[p]
+        if ins:
+            pos = pos[1]
+        content = harness.text_with_holes(ex, seed, [pos], 1, allowed=ENCODABLE, insert=ins) if pos is not None else seed
         rec = {"outcome": "?", "validated": 0, "viol": [], "queries": 0}
         # symbolic product: the loaded parse_string and parse_file (file model) on the same symbolic content
         ks, ps = levela.sym_parse(content, "exec")
@@ -106,7 +113,13 @@ def main():
     chk.functions |= {"subheader.py:Parser.parse_file", "tokenizer.py:Tokenizer.get_lines"}
     py, xs, lits = seeds.all_seeds()
     texts = FILE_SEEDS + LAYOUT_ERR_SEEDS + (seeds.sample(chk.rng, py, 15) + seeds.sample(chk.rng, lits, 15) if chk.quick else py + xs + [t for t in lits if len(t) < 120])
-    pairs = [(t, None) for t in texts] + hole_pairs(chk, texts, 3 if chk.quick else 0, 120)
+    from symx import errseeds
+    span = errseeds.spanning_errors() + errseeds.after_constructs()
+    pairs = [(t, None) for t in texts + (seeds.sample(chk.rng, span, 400) if chk.quick else span)] + hole_pairs(chk, texts, 3 if chk.quick else 0, 120)
+    # the first character of a FILE is special to text-mode decoding (signature / BOM, shebang, coding cookie): substituted and inserted
+    firsts = [t for t in texts if t and len(t) <= 120][: (25 if chk.quick else 400)]
+    pairs += [(t, 0) for t in firsts] + [(t, ("ins", 0)) for t in firsts]
+    pairs = list(dict.fromkeys(pairs))
     chk.extra["cases"] = len(pairs)
     witnesses = []
     old = chk.on_record
